@@ -105,3 +105,24 @@ func Tagged(tag string, n int) []byte {
 	}
 	return b
 }
+
+// DrawTrace returns an X-Amzn-Trace-Id header value in one of the shapes callers really send: canonical, without
+// Sampled, with Lineage / Self fields, in another field order, root only, or not an X-Ray header at all.
+func DrawTrace(t *Tape, n int) string {
+	root := fmt.Sprintf("1-5b3cc918-%024d", n)
+	switch t.Weighted(4, 1, 1, 1, 1, 1, 1) {
+	case 1:
+		return "Root=" + root + ";Parent=c88d77b0aef840e9"
+	case 2:
+		return "Root=" + root + ";Parent=c88d77b0aef840e9;Sampled=1;Lineage=a87bd80c:1|68fd508a:5"
+	case 3:
+		return "Sampled=0;Parent=c88d77b0aef840e9;Root=" + root
+	case 4:
+		return "Self=1-67891234-12456789abcdef012345678;Root=" + root + ";Sampled=1"
+	case 5:
+		return "Root=" + root
+	case 6:
+		return fmt.Sprintf("trace-%d-not-xray", n)
+	}
+	return fmt.Sprintf("Root=%s;Parent=c88d77b0aef840e9;Sampled=%d", root, t.Draw(2))
+}
